@@ -104,6 +104,9 @@ def line_label(line):
     m = re.match(r"^(\d+) (.*)$", line, re.S)
     if m:
         return int(m.group(1)), m.group(2)
+    m = re.match(r"^(\d+)$", line)          # a line that holds only its number (the bank strips the last line's blank)
+    if m:
+        return int(m.group(1)), ""
     return None, line
 
 
